@@ -136,6 +136,116 @@ class Name:
         raise Unsupported(f"str method {nm!r} on the name is not modelled")
 
 
+# ------------------------------------------------------------------------------------------ regular expressions on symbolic names
+class _Rendered:
+    """a name rendered for pattern matching: every numeric token becomes a UNIQUE placeholder digit string (its leading zeros kept), so that
+    the real `re` engine decides the token structure; a matched placeholder is mapped back to the symbolic token.  Sound for patterns that
+    treat digit strings uniformly (\\d+ and friends); a match that cuts a placeholder apart is Unsupported."""
+
+    def __init__(self, name):
+        self.map = {}
+        parts = []
+        k = 0
+        for t in name.toks:
+            if isinstance(t, NumTok):
+                k += 1
+                ph = "0" * t.pad + str(7000 + k)
+                self.map[ph] = t
+                parts.append(ph)
+            else:
+                parts.append(t)
+        self.text = "_".join(parts)
+
+    def back(self, x):
+        if x is None or not isinstance(x, str):
+            return x
+        if x in self.map:
+            return self.map[x]
+        if any(ph.lstrip("0") in x for ph in self.map):
+            raise Unsupported(f"a regular expression match cuts through / joins numeric tokens: {x!r}")
+        return x
+
+
+class _MatchShim:
+    def __init__(self, m, r):
+        self.m, self.r = m, r
+
+    def group(self, *a):
+        g = self.m.group(*a)
+        return tuple(self.r.back(x) for x in g) if isinstance(g, tuple) else self.r.back(g)
+
+    def groups(self, *a):
+        return tuple(self.r.back(x) for x in self.m.groups(*a))
+
+    def __getitem__(self, k):
+        return self.r.back(self.m[k])
+
+    def __bool__(self):
+        return True
+
+    def __getattr__(self, nm):
+        raise Unsupported(f"match object attribute {nm!r} is not modelled")
+
+
+class PatternShim:
+    """a compiled pattern that also accepts the symbolic name object"""
+
+    def __init__(self, pat):
+        self.pat = pat
+
+    def _on(self, fn, s, *a, **k):
+        if not isinstance(s, Name):
+            return getattr(self.pat, fn)(s, *a, **k)
+        r = _Rendered(s)
+        out = getattr(self.pat, fn)(r.text, *a, **k)
+        if fn in ("findall", "split"):
+            return [tuple(r.back(x) for x in o) if isinstance(o, tuple) else r.back(o) for o in out]
+        if fn in ("match", "search", "fullmatch"):
+            return None if out is None else _MatchShim(out, r)
+        if fn == "finditer":
+            return iter([_MatchShim(m, r) for m in out])
+        raise Unsupported(f"re: {fn} on a symbolic name is not modelled")
+
+    def __getattr__(self, nm):
+        if nm in ("findall", "split", "match", "search", "fullmatch", "finditer"):
+            return lambda s, *a, **k: self._on(nm, s, *a, **k)
+        if nm in ("sub", "subn"):
+            def f(repl, s, *a, **k):
+                if isinstance(s, Name):
+                    raise Unsupported("re.sub on a symbolic name is not modelled")
+                return getattr(self.pat, nm)(repl, s, *a, **k)
+            return f
+        return getattr(self.pat, nm)
+
+
+class ReShim:
+    """stand-in for the `re` module inside the target module"""
+
+    def __init__(self):
+        import re
+        self._re = re
+
+    def compile(self, p, *a, **k):
+        return PatternShim(self._re.compile(p, *a, **k))
+
+    def __getattr__(self, nm):
+        if nm in ("findall", "split", "match", "search", "fullmatch", "finditer", "sub", "subn"):
+            return lambda p, *a, **k: getattr(PatternShim(self._re.compile(p) if isinstance(p, str) else (p.pat if isinstance(p, PatternShim) else p)), nm)(*a, **k)
+        return getattr(self._re, nm)
+
+
+def re_bindings(module):
+    """rebind `re` and every compiled pattern among the module's globals"""
+    import re
+    out = {}
+    for k, v in list(vars(module).items()):
+        if v is re:
+            out[k] = ReShim()
+        elif isinstance(v, re.Pattern):
+            out[k] = PatternShim(v)
+    return out
+
+
 def sym_int_tok(x, *a):
     if isinstance(x, NumTok):
         return SR(z3.ToReal(x.n))
@@ -174,7 +284,7 @@ def run_shape(shape):
             return KINDS[k]
 
         def body():
-            with bound(NM, int=sym_int_tok):
+            with bound(NM, int=sym_int_tok, **re_bindings(NM)):
                 p = NM.GridNameParser(Name([mk(i, k) for i, k in enumerate(kinds)]), role)
                 alg, N, std = p.get_alg(), p.get_N(), p.get_standard_grid_name()
                 # re-parse the standard name alg_N
